@@ -41,9 +41,10 @@ def gen_cases(fmt, tier, workers=None):
         mod = "MC_SnappyGen"
     else:
         if tier == "quick":
-            runs = [("Depth = 2\nFullDepth = 1", None), ("Depth = 3\nFullDepth = 0", None)]
+            runs = [("Depth = 2\nFullDepth = 1\nHugeMl = {65040, 65041, 131072}", None), ("Depth = 3\nFullDepth = 0\nHugeMl = {}", None)]
         else:
-            runs = [("Depth = 3\nFullDepth = 1", None)]
+            runs = [("Depth = 3\nFullDepth = 1\nHugeMl = {}", None),
+                    ("Depth = 2\nFullDepth = 1\nHugeMl = {65039, 65040, 65041, 65042, 65535, 65536, 65554, 70000, 131072, 200000}", None)]
         mod = "MC_Lz4Gen"
     cases, results = [], []
     done = cl.parallel({k: (lambda consts=consts: cl.tlc_gen(mod, consts, what="%s %s" % (mod, consts.replace("\n", " ")), workers=workers))
